@@ -6,6 +6,7 @@ from .thermo_stubs import *
 from .kwn import *
 
 REG = Registry('C11')
+NUCP = 'kawin.precipitation.parameters.Nucleation'
 REG.assumptions += [
     'the thermodynamic backend itself is equivariant (pycalphad keeps elements in alphabetical order internally): assumed; what is proved is kawin\'s own '
     're-ordering between the user\'s element order and that alphabetical order, for every ordering of 2 and 3 solutes',
@@ -342,3 +343,33 @@ def c_getdt_model(ctx, it, cfg):
               and all(calls['vol'][6][p] is m.fields['precipitateParameters'][p].volume.Vm for p in range(P)))
     ctx.prove('remaining-time-and-previous-step-handed-over', and_(eq(calls['nuc'][3], dtPrev), eq(calls['temp'][2], dtPrev), eq(calls['rcrit'][4], dtPrev)))
     ctx.prove('canary/always-the-grown-previous-step', eq(dt, (1 + cons.dtScale) * dtPrev), expect='refuted')
+
+
+# the nucleation step treats every phase on its own (one thermodynamic query per phase, each phase's own driving force recorded whatever the phases listed before it
+# do): the C01 contract on the real _calcNucleationRate, registered here because it is what makes the result independent of the phase order
+from . import c01 as _c01
+REG.contracts.append(_c01.c_rest.contract)
+
+
+@REG.contract('setBulkDensityFromComposition/independent-of-the-solute-order', [NUCP + ':NucleationSiteParameters.setBulkDensityFromComposition'],
+              configs=[dict(name='E=%d' % E, E=E) for E in (1, 2, 3)])
+def c_bulkn0(ctx, it, cfg):
+    """the default bulk nucleation-site density is the number of atoms of the SCARCEST solute per volume: the same for every order in which the solutes are listed"""
+    E = cfg['E']
+    xs = [real(ctx, 'x%d' % e, lambda v: v > 0) for e in range(E)]
+    Vm = real(ctx, 'VmAlpha', lambda v: v > 0)
+    NA = it.load('kawin.Constants').env['AVOGADROS_NUMBER']
+    smallest = xs[0]
+    for v in xs[1:]:
+        smallest = vmin(smallest, v)
+    vals = []
+    for perm in itertools.permutations(range(E)):
+        sp = it.get(NUCP, 'NucleationSiteParameters')()
+        sp.fields['VmAlpha'] = Vm
+        sp.fields['_validateVolume'] = lambda what: None
+        x0 = NP.array([xs[k] for k in perm]) if E > 1 else xs[0]
+        sp.setBulkDensityFromComposition(x0)
+        ctx.prove('order[%s]/sites = scarcest solute * N_A / Vm' % ''.join(map(str, perm)), eq(sp.bulkN0 * Vm, smallest * NA))
+        ctx.prove('order[%s]/marked-as-composition-dependent' % ''.join(map(str, perm)), sp.fields['_compositionDependentBulkN0'] is True)
+    if E >= 2:
+        ctx.prove('canary/sites-from-the-first-listed-solute', eq(sp.bulkN0 * Vm, xs[E - 1] * NA), expect='refuted')
